@@ -22,9 +22,15 @@ use hyper::Uri;
 use mime::Mime;
 use tracing::debug;
 
+/// Optional whitespace around a field value is not part of the value (RFC 9110 section 5.5);
+/// the canonical headers are trimmed the same way.
+fn trim_ows(val: &str) -> &str {
+    val.trim_matches(|c| c == ' ' || c == '\t')
+}
+
 fn extract_amz_content_sha256<'a>(hs: &'_ OrderedHeaders<'a>) -> S3Result<Option<AmzContentSha256<'a>>> {
     let Some(val) = hs.get_unique(crate::header::X_AMZ_CONTENT_SHA256) else { return Ok(None) };
-    match AmzContentSha256::parse(val) {
+    match AmzContentSha256::parse(trim_ows(val)) {
         Ok(x) => Ok(Some(x)),
         Err(e) => {
             let mut err: S3Error = S3ErrorCode::Custom(ByteString::from_static("XAmzContentSHA256Mismatch")).into();
@@ -45,7 +51,7 @@ fn extract_authorization_v4<'a>(hs: &'_ OrderedHeaders<'a>) -> S3Result<Option<A
 
 fn extract_amz_date(hs: &'_ OrderedHeaders<'_>) -> S3Result<Option<AmzDate>> {
     let Some(val) = hs.get_unique(crate::header::X_AMZ_DATE) else { return Ok(None) };
-    match AmzDate::parse(val) {
+    match AmzDate::parse(trim_ows(val)) {
         Ok(x) => Ok(Some(x)),
         Err(e) => Err(invalid_request!(e, "invalid header: x-amz-date")),
     }
